@@ -143,6 +143,12 @@ def build_node(
             return process_method(*args, **kwargs, **(dependencies_default or {}))
 
     class_name = class_name or f'Generic{node.__name__}'
+
+    # A bound method is pickled by name (getattr(instance, method.__name__)): under its own name the new run method
+    # could not be found in a worker of the process pool, and the pool would break.
+    class_method.__name__ = 'process'
+    class_method.__qualname__ = f'{class_name}.process'
+
     created_node = type(
         class_name,
         (node,),
